@@ -390,6 +390,40 @@ func (b *byzSyncer) mutate(m Mut, honest *syncer.ProofResponse, alt func(kind st
 	return r
 }
 
+// proofLookup follows the lookup path of key through a verified (partial) pointer tree the
+// way the tree's own Get does and reports the answer, or that the path is not fully expanded.
+func proofLookup(ptr *node.Pointer, key node.Key) (val []byte, present, determined bool) {
+	var depth node.Depth
+	for steps := 0; steps < 1<<16; steps++ {
+		if ptr == nil {
+			return nil, false, true
+		}
+		switch n := ptr.Node.(type) {
+		case nil:
+			return nil, false, false
+		case *node.InternalNode:
+			bitLength := depth + n.LabelBitLength
+			switch {
+			case key.BitLength() < bitLength:
+				return nil, false, true
+			case key.BitLength() == bitLength:
+				ptr = n.LeafNode
+			case key.GetBit(bitLength):
+				ptr = n.Right
+			default:
+				ptr = n.Left
+			}
+			depth = bitLength
+		case *node.LeafNode:
+			if n.Key.Equal(key) {
+				return n.Value, true, true
+			}
+			return nil, false, true
+		}
+	}
+	return nil, false, false
+}
+
 // entInfo describes the node a proof entry stands for.
 type entInfo struct {
 	internal *node.InternalNode // with true child pointers (hashes) set
@@ -628,10 +662,23 @@ func (ProofEngine) Execute(sc *core.Scenario, st *core.Stats) (*core.Violation, 
 						v = pfViol("honest-proof-rejected", fmt.Sprintf("step %d: honest proof for key %x (v%d, siblings=%v) does not verify against its own root: %v", step, key, op.Ver, op.Siblings, err))
 						return
 					}
-					if _, err := pv.VerifyProof(ctx, root.Hash, &rsp.Proof); err != nil {
+					rootPtr, err := pv.VerifyProof(ctx, root.Hash, &rsp.Proof)
+					if err != nil {
 						v = pfViol("honest-proof-rejected", fmt.Sprintf("step %d: VerifyProof rejects what VerifyProofToWriteLog accepted: %v", step, err))
 						return
 					}
+					// Completeness: the verified proof alone must determine the answer for the key
+					// (its value, or its absence), i.e. the lookup path must be fully expanded.
+					pval, ppresent, determined := proofLookup(rootPtr, key)
+					switch {
+					case !determined:
+						v = pfViol("honest-proof-indeterminate", fmt.Sprintf("step %d: the honest proof for key %x (v%d, siblings=%v, present=%v) verifies but does not determine the answer: the lookup path ends in an unexpanded hash", step, key, op.Ver, op.Siblings, present))
+						return
+					case ppresent != present || (present && !bytes.Equal(pval, contents[string(key)])):
+						v = pfViol("honest-proof-wrong-answer", fmt.Sprintf("step %d: the honest proof for key %x (v%d) determines (%x, present=%v) but the tree holds (%x, present=%v)", step, key, op.Ver, pval, ppresent, contents[string(key)], present))
+						return
+					}
+					st.Inc("probe.proof_determines_answer")
 					found := false
 					for _, e := range wl {
 						tv, ok := contents[string(e.Key)]
